@@ -218,6 +218,7 @@ func check(id, tier string) int {
 	seed, _ := strconv.ParseInt(os.Getenv("VERIF_SEED"), 10, 64)
 	bd := filepath.Join(root, ".build", id)
 	os.RemoveAll(filepath.Join(bd, "out"))
+	os.RemoveAll(filepath.Join(bd, "tmp")) // worker scratch of earlier runs
 	os.MkdirAll(filepath.Join(bd, "out"), 0o755)
 	bin := build(bd, sp.Race)
 	gwBin, authBin := "", ""
